@@ -105,6 +105,25 @@ func genC09(h *H) {
 			bases = append(bases, enc)
 		}
 	}
+	// every minimal length 1..32 with the top byte just below / at / above the sign boundary, as r and as s
+	// (the canonicalisation walks the leading zero bytes one at a time and must keep a 0x00 in front of a high bit)
+	for l := 1; l <= 32; l++ {
+		for _, top := range []byte{0x01, 0x7f, 0x80, 0xff} {
+			v := h.randBytes(l)
+			v[0] = top
+			if h.rng.Intn(3) == 0 {
+				for i := 1; i < l; i++ {
+					v[i] = 0
+				}
+			}
+			vi := new(big.Int).SetBytes(v)
+			if vi.Cmp(curveN) >= 0 {
+				continue
+			}
+			h.do("serialize-short", "der_serialize", hx(be32(vi)), hx(be32(big.NewInt(int64(1+h.rng.Intn(100))))))
+			h.do("serialize-short", "der_serialize", hx(be32(big.NewInt(int64(1+h.rng.Intn(100))))), hx(be32(vi)))
+		}
+	}
 	// serialise at the boundaries (low-s flip)
 	for _, r := range bs {
 		for _, s := range bs {
